@@ -16,3 +16,9 @@ func init() {
 		return c16.RunRequestShapes(c16.Config{Module: module, Seed: seed, Tier: tier, Driver: d, Replay: replay})
 	}
 }
+
+func init() {
+	runners["C09K"] = func(module string, seed int64, tier string, d *hx.Driver, replay []string) *hx.Result {
+		return c16.RunIdsOrder(c16.Config{Module: module, Seed: seed, Tier: tier, Driver: d, Replay: replay})
+	}
+}
